@@ -124,9 +124,7 @@ def replay_scenarios(ctx: Ctx, jobs: list) -> None:
         ctx.traces += 1
         if _nontrivial(events, calls):
             ctx.nontrivial((cfg["m"], cfg["dtype"], cfg["max_norm"], k, tuple(events)))
-        for c, r in zip(calls, res["recs"]):
-            ctx.count(f"dtype_{cfg['dtype']}")
-            break
+        ctx.count(f"histories_{cfg['dtype']}")
 
 
 # ----------------------------------------------------------------------------- C->S
